@@ -373,6 +373,13 @@ def agent_spec(key, style):
         d['steps'] = {'adivide': GDivider({'key': key, 'at': 2}), 'double': GDouble(), 'succ': GSucc()}
         d['flow'] = {'adivide': [], 'double': [], 'succ': [('double',)]}
         d['topology'] = dict(topo, adivide={'v': ('v',), 'agents': ('..',)})
+    elif style == 'flow-divider-nested':
+        # as flow-divider, but the chain double -> succ lives one level further down (a sub-compartment of the agent), declared
+        # with the dependent FIRST: only the flow puts `double` before `succ`, before and after the division
+        d['steps'] = {'adivide': GDivider({'key': key, 'at': 2}), 'sub': {'succ': GSucc(), 'double': GDouble()}}
+        d['flow'] = {'adivide': [], 'sub': {'succ': [('double',)], 'double': []}}
+        d['topology'] = {'grow': {'v': ('v',)}, 'adivide': {'v': ('v',), 'agents': ('..',)},
+                         'sub': {'succ': {'v': ('..', 'v')}, 'double': {'v': ('..', 'v')}}}
     elif style == 'flow-chain':
         d['steps'] = {'double': GDouble(), 'succ': GSucc()}
         d['flow'] = {'double': [], 'succ': [('double',)]}
@@ -436,13 +443,13 @@ def check_generated(case):
                 if op[0] == 'delete':
                     styles.pop(op[1], None)
             for name, style in list(styles.items()):
-                if style == 'flow-divider' and name not in agents and name + '0' in agents and name + '1' in agents:
+                if style.startswith('flow-divider') and name not in agents and name + '0' in agents and name + '1' in agents:
                     styles.pop(name)
                     for dn in (name + '0', name + '1'):
                         styles[dn] = 'flow-chain'      # the daughters carry the same chain double -> succ
                         last_x[dn] = agents[dn]['v']['x']
                     continue
-                if style == 'flow-divider' and name in agents and agents[name]['v']['x'] >= 3:
+                if style.startswith('flow-divider') and name in agents and agents[name]['v']['x'] >= 3:
                     fails.append('tick %d: agent %s should have divided (x=%r)' % (tick, name, agents[name]['v']['x']))
                 if style == 'legacy-reaper' and name not in agents:
                     styles.pop(name)          # it died (checked below: only when its x had reached the threshold)
@@ -580,6 +587,7 @@ def main():
                {'a0': 'legacy-in-processes', 'script': {'2': [['generate', 'a1', 'flow-layer']]}, 'ticks': 4, 'via_composite': True}]
     gcases += [{'a0': 'legacy-steps', 'script': {'1': [['generate', 'a1', 'legacy-steps']], '2': [['delete', 'a1']], '3': [['generate', 'a1', 'legacy-steps']]}, 'ticks': 6},
                {'a0': 'flow-chain', 'script': {'1': [['delete', 'a0']], '2': [['generate', 'a0', 'legacy-steps']]}, 'ticks': 5}]
+    gcases += [{'a0': 'flow-divider-nested', 'script': {}, 'ticks': 6}, {'a0': 'flow-chain', 'script': {'1': [['generate', 'a1', 'flow-divider-nested']]}, 'ticks': 6}]
     gcases += [{'a0': 'flow-divider', 'script': {}, 'ticks': 5}, {'a0': 'legacy-steps', 'script': {'1': [['generate', 'a1', 'flow-divider']]}, 'ticks': 6}]
     gcases += [gen_generated(rng) for _ in range(20 if a.tier == 'quick' else 400)]
     for gi, case in enumerate(gcases):
